@@ -41,8 +41,48 @@ EXPLANATION = ('CrossHair+z3 executes each pool statement on a symbolic input do
 TECHNIQUE = 'bounded symbolic execution (CrossHair+z3) with heap-fingerprint frame conditions at dispatch points (guarantee) and havoc of observed shared writes (rely); replay with real threads'
 
 ENG = yaql.YaqlFactory().create()
-SHARED = yaql.create_context()
-SHARED['cfg'] = 7          # a host-prepared variable in the shared context
+
+
+def _prepare_shared():
+    """the host's prepared context: standard library + a variable + a function defined in YAQL (def) whose lambda therefore
+    outlives the evaluation that created it + a host function declared with an AnyOf type"""
+    base = yaql.create_context()
+    base['cfg'] = 7
+
+    @specs.parameter('x', yaqltypes.AnyOf(yaqltypes.String(), yaqltypes.Integer()))
+    def anyof(x):
+        return x
+    base.register_function(anyof)
+    eng_raw = yaql.YaqlFactory().create(options={'yaql.convertOutputData': False})
+    prepared = eng_raw('def(twice, $ * 2) -> def(addcfg, $ + $cfg) -> $').evaluate(context=base.create_child_context())
+    ctx = eng_raw('def(twice, $ * 2) -> def(addcfg, $1 + $cfg) -> let(k => 1) -> context()') if False else None
+    return base
+
+
+def _defs_context(base):
+    """child of `base` holding functions created by `def` (their lambdas are shared by every later evaluation)"""
+    from yaql.language import contexts as _c
+    holder = {}
+
+    def grab(context):
+        holder['ctx'] = context
+        return 1
+    child = base.create_child_context()
+    child.register_function(specs.inject('context', yaqltypes.Context())(grab), name='grab')
+    eng = yaql.YaqlFactory().create()
+    eng('def(twice, $ * 2) -> def(addcfg, $ + $cfg) -> grab()').evaluate(context=child)
+    return holder['ctx'].parent            # the context in which grab() was called holds both definitions
+
+
+SHARED_BASE = _prepare_shared()
+SHARED = _defs_context(SHARED_BASE)
+
+
+def _noop_finalizer(x):
+    return x
+
+
+BARE = yaql.create_context(finalizer=_noop_finalizer)      # a hand-assembled chain without '#finalize' and '#iter'
 PLAIN = yaql.create_context()
 
 POOL_SRC = [
@@ -85,6 +125,9 @@ POOL_SRC = [
     '$.l.toDict($.y, $.x)',
     '$.a in $.b or $.s in "abc"',
     'call(len, [$.b], {})',
+    'twice($.a) + addcfg($.a)',
+    '$.b.select(twice($))',
+    'anyof($.a) + anyof($.a) + len(anyof($.s))',
     '$.b.aggregate($1 + $2, 0) / 2',
 ]
 STMTS = [ENG(t) for t in POOL_SRC]
@@ -171,7 +214,7 @@ def module_roots():
 
 
 def shared_roots():
-    return [STMTS, ENG, SHARED] + module_roots()
+    return [STMTS, ENG, SHARED, BARE] + module_roots()
 
 
 def fp_digest(fp):
@@ -247,7 +290,7 @@ def collect_pre_existing():
 _orig_call = runner.call
 
 
-def evaluate_watched(si, doc, check_every=1, via_eval=False):
+def evaluate_watched(si, doc, check_every=1, via_eval=False, bare=False):
     """evaluate pool statement si in its own child of the shared context (or through the module-level yaql.eval);
     -> (outcome, list of anomalies, number of dispatch points)"""
     anomalies = []
@@ -271,7 +314,7 @@ def evaluate_watched(si, doc, check_every=1, via_eval=False):
             if via_eval:
                 out = ('ok', yaql.eval(POOL_SRC[si], data=doc))
             else:
-                out = ('ok', STMTS[si].evaluate(data=doc, context=SHARED.create_child_context()))
+                out = ('ok', STMTS[si].evaluate(data=doc, context=(BARE if bare else SHARED).create_child_context()))
         except Exception as e:
             out = ('err', type(e).__name__)
     finally:
@@ -298,7 +341,7 @@ def guarantee(s: int, a: int) -> bool:
     post: _
     """
     si = SBOX[s][0]
-    out, anomalies, n = evaluate_watched(si, make_doc(a, 2, 'ab'))
+    out, anomalies, n = evaluate_watched(si, make_doc(a, 2, 'ab'), bare=bool(H.P('bare')))
     H.note('dispatch_points', n)
     return H.done(not anomalies)
 
@@ -369,6 +412,11 @@ def conditions(tier, seed):
                 'param': {'slo': lo, 'shi': lo + 10},
                 'bounds': 'yaql.eval of 10 pool statements after the text was cached once: fingerprint of the '
                           'yaql module caches/engine/default context at every runner.call (selectors; concrete documents)'})
+    for lo in (0, 20):
+        out.append({'name': 'guarantee_bare[stmts=%d-%d]' % (lo, lo + 3), 'func': 'guarantee', 'timeout': t,
+                    'param': {'slo': lo, 'shi': lo + 4, 'bare': True},
+                    'bounds': 'as guarantee, in children of a shared context chain that has no #finalize function (hand-assembled '
+                              'host context)'})
     out.append({'name': 'eval_cache_shared', 'func': 'eval_cache_shared', 'timeout': t,
                 'bounds': 'yaql.eval vs direct evaluation for every pool statement x 3 documents (selectors; each path one '
                           'concrete history of the module-level caches); default context stays empty'})
@@ -477,7 +525,8 @@ def replay(cond, args):
                 'what': 'yaql.eval(%r) on an already cached text changes the module-level shared state (%s)%s' % (
                     POOL_SRC[si], sorted(set(anomalies))[:3], '; ' + diff if diff else '')}
     doc = make_doc(args['a'], 2, 'ab')
-    out, anomalies, n = evaluate_watched(si, doc)
+    bare = bool((cond.get('param') or {}).get('bare'))
+    out, anomalies, n = evaluate_watched(si, doc, bare=bare)
     if not anomalies:
         return {'reproduced': False, 'note': 'no shared write on CPython'}
     diff = threaded_differs(si, doc)
